@@ -119,6 +119,8 @@ enum Alphabet {
     Medium,
     /// + reversed subsets, adjacent repeats ([a,a,b]), triples ([a,a,a])
     Rich,
+    /// Medium for the last node (the one that may depend on all others), Plain for the rest
+    MediumLast,
 }
 
 fn lists_for(cands: &[u8], alpha: Alphabet) -> Vec<Vec<u8>> {
@@ -217,7 +219,12 @@ fn pick_case(ch: &Chooser, part: &Part) -> Case {
     for i in 0..n {
         let mut cands: Vec<u8> = (0..i as u8).collect();
         cands.push(M);
-        let ls = lists_for(&cands, part.alpha);
+        let alpha = match part.alpha {
+            Alphabet::MediumLast if i + 1 == n => Alphabet::Medium,
+            Alphabet::MediumLast => Alphabet::Plain,
+            a => a,
+        };
+        let ls = lists_for(&cands, alpha);
         lists.push(ls[ch.choose_free(ls.len(), "deps")].clone());
     }
     let ds = deliveries(n, part.dups);
@@ -368,6 +375,9 @@ fn exec_case(case: &Case) -> CaseResult {
             }
         })
     });
+    // the clone must go before the context: the last reference has to be dropped by Ctx::drop
+    // inside the runtime
+    drop(store);
     match r {
         Ok(evs) => {
             if evs.is_err() {
@@ -548,8 +558,8 @@ pub fn run(mut rep: Report) -> i32 {
     let parts: Vec<(Part, u64)> = if thorough {
         vec![
             (p("inner n<=3, rich lists, permutations + re-deliveries, both drain policies", "inner", 1, 3, Rich, true, true), 120),
-            (p("inner n=4, lists with appended repeats, permutations, both drain policies", "inner", 4, 4, Medium, false, true), 200),
-            (p("inner n=4, set lists, permutations + re-deliveries, both drain policies", "inner", 4, 4, Plain, true, true), 100),
+            (p("inner n=4, set lists (last node: also with appended repeats), permutations, both drain policies", "inner", 4, 4, MediumLast, false, true), 150),
+            (p("inner n=4, set lists, permutations + re-deliveries, drain after every delivery", "inner", 4, 4, Plain, true, false), 200),
             (p("processor n<=3, rich lists, permutations + re-deliveries, both drain policies", "processor", 1, 3, Rich, true, true), 120),
             (p("processor n=4, set lists, permutations, both drain policies", "processor", 4, 4, Plain, false, true), 40),
         ]
@@ -601,6 +611,11 @@ pub fn run(mut rep: Report) -> i32 {
                 },
             );
             *by_level.entry(part.level).or_default() += st.executions;
+            let mut st = st;
+            if too_much_trouble() {
+                // cases skipped after the cut make fewer decisions than their recorded prefix
+                st.divergences.retain(|d| !d.contains("short run") && !d.contains("made only"));
+            }
             rep.absorb_dfs(part.name, &st, 0);
         }
         // differential: every violation-free case with a repeated entry against its twin with
